@@ -210,6 +210,53 @@ def _simple_key(k: ast.AST) -> bool:
     return True
 
 
+def _namedtuple_fields(model):
+    """({class qname: ([field names], {field: default})}, {field name: index}) -- the second map only holds fields whose name is used
+    for nothing else in the package (no other class attribute / annotation / method / stored attribute of that name) and that sit at
+    the same index in every NamedTuple that has them."""
+    memo = model.__dict__.get("_idioms_namedtuples")
+    if memo is not None:
+        return memo
+    classes: dict = {}
+    for c in model.classes.values():
+        if not any(ast.unparse(b).split("[")[0].split(".")[-1] == "NamedTuple" for b in c.base_exprs):
+            continue
+        fields: list = []
+        defaults: dict = {}
+        for st in c.node.body:
+            if isinstance(st, ast.AnnAssign) and isinstance(st.target, ast.Name):
+                fields.append(st.target.id)
+                if st.value is not None:
+                    defaults[st.target.id] = st.value
+        if fields:
+            classes[c.qname] = (fields, defaults)
+    by_name: dict = {}
+    if classes:
+        positions: dict = {}
+        for q, (fields, _d) in classes.items():
+            for i, nm in enumerate(fields):
+                positions.setdefault(nm, set()).add(i)
+        stored: set = set()
+        for mod in model.modules.values():
+            for n in ast.walk(mod.tree):
+                if isinstance(n, ast.Attribute) and isinstance(n.ctx, (ast.Store, ast.Del)):
+                    stored.add(n.attr)
+        for nm, pos in positions.items():
+            if len(pos) != 1 or nm in stored:
+                continue
+            clash = False
+            for c in model.classes.values():
+                if c.qname in classes:
+                    continue
+                if nm in c.methods or nm in c.assigns or nm in c.anns:
+                    clash = True
+                    break
+            if not clash:
+                by_name[nm] = next(iter(pos))
+    memo = model.__dict__["_idioms_namedtuples"] = (classes, by_name)
+    return memo
+
+
 class _Expr(ast.NodeTransformer):
     """Expression-level idioms and table lookups."""
 
@@ -370,9 +417,42 @@ class _Expr(ast.NodeTransformer):
                 return ast.copy_location(_chain(n.slice, rows, dflt), n)
         return n
 
+    def visit_Attribute(self, n: ast.Attribute):
+        self.generic_visit(n)
+        # result.hit  ->  result[0]   for a field of a typing.NamedTuple whose name means nothing else in the package
+        if isinstance(n.ctx, ast.Load):
+            ix = _namedtuple_fields(self.t.model)[1].get(n.attr)
+            if ix is not None:
+                self.changed = True
+                return ast.copy_location(ast.Subscript(value=n.value, slice=ast.Constant(value=ix), ctx=ast.Load()), n)
+        return n
+
     def visit_Call(self, n: ast.Call):
         self.generic_visit(n)
         f = n.func
+        # Pair(a, b) for a typing.NamedTuple class  ->  (a, b)    (a named tuple *is* the tuple; only its repr differs)
+        fn_ = f.value if isinstance(f, ast.Subscript) else f
+        if isinstance(fn_, ast.Name) and not self.t._is_local(fn_.id) and not any(isinstance(a, ast.Starred) for a in n.args) \
+                and not any(k.arg is None for k in n.keywords):
+            c_ = self.t.model.resolve_name(self.t.f.module, fn_.id)
+            spec = _namedtuple_fields(self.t.model)[0].get(getattr(c_, "qname", None)) if c_ is not None else None
+            if spec is not None:
+                fields, defaults = spec
+                vals: list = list(n.args)
+                kw = {k.arg: k.value for k in n.keywords}
+                ok = len(vals) <= len(fields) and all(k in fields[len(vals):] for k in kw)
+                if ok:
+                    for name in fields[len(vals):]:
+                        if name in kw:
+                            vals.append(kw[name])
+                        elif name in defaults:
+                            vals.append(copy.deepcopy(defaults[name]))
+                        else:
+                            ok = False
+                            break
+                if ok:
+                    self.changed = True
+                    return ast.copy_location(ast.Tuple(elts=vals, ctx=ast.Load()), n)
         # x.m(*pair)  ->  x.m(pair[0], pair[1])   when every definition of m takes exactly that many more positional parameters
         if len(n.args) >= 1 and isinstance(n.args[-1], ast.Starred) and not any(isinstance(a, ast.Starred) for a in n.args[:-1]) and not n.keywords \
                 and isinstance(f, ast.Attribute) and isinstance(n.args[-1].value, (ast.Name, ast.Attribute, ast.Subscript)):
@@ -832,11 +912,161 @@ def _densified_dict(node: ast.AST) -> bool:
         break
     return changed
 
+# ---------------------------------------------------------------------------------------------------------------------------
+# named constants
+
+def _module_scalar(model, mod, name: str):
+    """The int / bool / str a module-level name is bound to -- when it is bound exactly once at module level, never declared
+    `global`, never stored to as an attribute of the module, and its value folds.  Else None."""
+    memo = model.__dict__.setdefault("_idioms_scalars", {})
+    key = (mod.name, name)
+    if key in memo:
+        return memo[key]
+    memo[key] = None
+    binds = 0
+    for st in mod.tree.body:
+        for n in ast.walk(st) if not isinstance(st, (ast.FunctionDef, ast.AsyncFunctionDef, ast.ClassDef)) else []:
+            if isinstance(n, ast.Name) and n.id == name and isinstance(n.ctx, (ast.Store, ast.Del)):
+                binds += 1
+    if binds != 1:
+        return None
+    for n in ast.walk(mod.tree):
+        if isinstance(n, (ast.Global, ast.Nonlocal)) and name in n.names:
+            return None
+    for m2 in model.modules.values():
+        for n in ast.walk(m2.tree):
+            if isinstance(n, ast.Attribute) and n.attr == name and isinstance(n.ctx, (ast.Store, ast.Del)):
+                return None
+            if isinstance(n, ast.Call) and isinstance(n.func, ast.Name) and n.func.id in ("setattr", "delattr"):
+                if len(n.args) < 2 or not isinstance(n.args[1], ast.Constant) or n.args[1].value == name:
+                    return None
+    from .consteval import Folder
+    try:
+        v = Folder(model, mod, None, None).fold(mod.assigns[name])
+    except Exception:
+        return None
+    if type(v) in (int, bool, str):
+        memo[key] = (v,)
+    return memo[key]
+
+
+def _class_scalar(model, cls, name: str):
+    """Likewise for a class-level constant reached as `self.NAME` / `Class.NAME`: bound once in the class body that defines it, no
+    attribute store `x.NAME = ..` anywhere in the package, not an Enum member."""
+    memo = model.__dict__.setdefault("_idioms_cscalars", {})
+    key = (cls.qname, name)
+    if key in memo:
+        return memo[key]
+    memo[key] = None
+    hit = model.lookup_assign(cls, name)
+    if hit is None:
+        return None
+    k, e = hit
+    for b in model.mro(k):
+        if not hasattr(b, "base_exprs"):
+            continue
+        if b.is_dataclass:
+            return None  # a class-level default of a dataclass is an instance field
+        for x in b.base_exprs:
+            t = ast.unparse(x)
+            if t.split("[")[0].split(".")[-1] not in ("object", "ABC", "Generic", "Protocol") and model.resolve_class(b.module, x) is None:
+                return None  # Enum, NamedTuple, TypedDict, list, Exception, ...: class-level names are not plain constants there
+    # overridden in a subclass, or also an instance attribute / method somewhere below or above: not a constant of the receiver
+    for c2 in model.subclasses(cls):
+        if c2 is not k and (name in c2.assigns or name in c2.methods) and c2 is not cls:
+            return None
+        if c2 is cls and c2 is not k and name in c2.assigns:
+            return None
+    body_binds = 0
+    knode = getattr(k, "node", None)
+    if knode is None:
+        return None
+    for st in knode.body:
+        if isinstance(st, (ast.FunctionDef, ast.AsyncFunctionDef, ast.ClassDef)):
+            continue
+        for n in ast.walk(st):
+            if isinstance(n, ast.Name) and n.id == name and isinstance(n.ctx, (ast.Store, ast.Del)):
+                body_binds += 1
+    if body_binds != 1:
+        return None
+    for m2 in model.modules.values():
+        for n in ast.walk(m2.tree):
+            if isinstance(n, ast.Attribute) and n.attr == name and isinstance(n.ctx, (ast.Store, ast.Del)):
+                return None
+            if isinstance(n, ast.Call) and isinstance(n.func, ast.Name) and n.func.id in ("setattr", "delattr"):
+                if len(n.args) < 2 or not isinstance(n.args[1], ast.Constant) or n.args[1].value == name:
+                    return None
+    from .consteval import Folder
+    try:
+        v = Folder(model, k.module, k, None).fold(e)
+    except Exception:
+        return None
+    if type(v) in (int, bool, str):
+        memo[key] = (v,)
+    return memo[key]
+
+
+def _named_constants(model, f, node) -> bool:
+    """`WORD_BYTES * i` with a module-level `WORD_BYTES = 4`, `self.MASK` / `Memory.MASK` with a class-level constant: the value.
+    (Named constants are how magic numbers get cleaned up; every rule should see the number.)"""
+    local: set = set(f.params)
+    for n in ast.walk(node):
+        if isinstance(n, ast.Name) and isinstance(n.ctx, (ast.Store, ast.Del)):
+            local.add(n.id)
+        elif isinstance(n, ast.arg):
+            local.add(n.arg)
+        elif isinstance(n, (ast.Global, ast.Nonlocal)):
+            return False
+        elif isinstance(n, ast.ExceptHandler) and n.name:
+            local.add(n.name)
+        elif isinstance(n, (ast.Import, ast.ImportFrom)):
+            for a in n.names:
+                local.add((a.asname or a.name).split(".")[0])
+    changed = [False]
+    s0 = f.params[0] if f.cls is not None and f.params and not getattr(f, "is_staticmethod", False) else None
+
+    class T(ast.NodeTransformer):
+        def visit_Name(self, n: ast.Name):
+            if isinstance(n.ctx, ast.Load) and n.id not in local:
+                r = model.resolve_name(f.module, n.id)
+                if isinstance(r, tuple) and r[0] == "assign":
+                    v = _module_scalar(model, r[1], r[2])
+                    if v is not None:
+                        changed[0] = True
+                        return ast.copy_location(ast.Constant(value=v[0]), n)
+            return n
+
+        def visit_Attribute(self, n: ast.Attribute):
+            if isinstance(n.ctx, ast.Load) and isinstance(n.value, ast.Name):
+                cls = None
+                if s0 is not None and n.value.id == s0 and s0 not in (local - set(f.params)):
+                    cls = f.cls
+                elif n.value.id not in local:
+                    r = model.resolve_name(f.module, n.value.id)
+                    from .model import ClassInfo, ModuleInfo
+                    if isinstance(r, ClassInfo):
+                        cls = r
+                    elif isinstance(r, ModuleInfo) and n.attr in r.assigns:
+                        v = _module_scalar(model, r, n.attr)
+                        if v is not None:
+                            changed[0] = True
+                            return ast.copy_location(ast.Constant(value=v[0]), n)
+                if cls is not None:
+                    v = _class_scalar(model, cls, n.attr)
+                    if v is not None:
+                        changed[0] = True
+                        return ast.copy_location(ast.Constant(value=v[0]), n)
+            return self.generic_visit(n)
+
+    T().visit(node)
+    return changed[0]
+
 
 def canonicalise(model, f) -> bool:
     """Rewrite f.node in place (a copy); returns True when something changed."""
     tables = Tables(model, f)
     node = copy.deepcopy(f.node)
+    named = _named_constants(model, f, node)
     ex = _Expr(tables)
     # statement level first on the original expressions (so `a, b = T[k]` is still a subscript), then expressions
     st = _Stmt(tables)
@@ -849,7 +1079,7 @@ def canonicalise(model, f) -> bool:
         st2 = _Stmt(tables)
         node.body = st2.block(node.body)
         st.changed = st.changed or st2.changed
-    if not (ex.changed or st.changed):
+    if not (ex.changed or st.changed or named):
         return False
     _prune_covered_misses(node.body, {})
     ast.fix_missing_locations(node)
